@@ -1,5 +1,6 @@
 import PrefVerif.Driver.Util
 import PrefVerif.Spec.Domains
+import PrefVerif.Spec.NearlySP
 import PrefVerif.Model.SingleCrossing
 import PrefVerif.Model.SinglePeakedAxis
 import PrefVerif.Model.SPTree
@@ -62,5 +63,32 @@ def c1p : Handler := fun j => do
   return obj [
     ("witnessOk", toJson (witnesses.map (fun w => Spec.c1pWitness n rows w))),
     ("bruteC1P", optB brute (fun _ => Spec.bruteC1P n rows))]
+
+end PrefVerif.Driver.Domains
+
+namespace PrefVerif.Driver.Domains
+open PrefVerif.Spec.Nearly
+
+/-- C12 / C18: certificates of the nearly-single-peaked optimisers and brute-force optima -/
+def nearly : Handler := fun j => do
+  let alts ← arg (α := List Nat) j "alts"
+  let orders ← arg (α := List Order) j "orders"
+  let brute := argD j "brute" false
+  let c ← arg (α := Json) j "certs"
+  let has := fun (k : String) => (c.getObjVal? k).isOk
+  let l := fun (k : String) => argD c k ([] : List Nat)
+  let axes := argD c "axes" ([] : List (List Nat))
+  let axes2 := argD c "axes2" ([] : List (List Nat))
+  let lazyN := fun (v : Unit → Nat) => if brute then toJson (v ()) else Json.null
+  return obj [
+    ("minAlt", lazyN (fun _ => minAltDeletion alts orders)),
+    ("minVoter", lazyN (fun _ => minVoterDeletion alts orders)),
+    ("minPartition", lazyN (fun _ => minPartition alts orders)),
+    ("voterCert", if has "vd_axis" then toJson (voterDeletionCert alts orders (l "vd_axis") (l "vd_deleted")) else Json.null),
+    ("altCert", if has "ad_axis" then toJson (altDeletionCert alts orders (l "ad_axis") (l "ad_deleted")) else Json.null),
+    ("dpCert", if has "dp_axis" then toJson (altDeletionCert alts orders (l "dp_axis") (l "dp_deleted")
+        && Spec.isPermOf (l "dp_axis" ++ l "dp_deleted") alts) else Json.null),
+    ("axesCert", if has "axes" then toJson (partitionCert alts orders axes) else Json.null),
+    ("axes2Cert", if has "axes2" then toJson (partitionCert alts orders axes2) else Json.null)]
 
 end PrefVerif.Driver.Domains
